@@ -113,7 +113,7 @@ func panicFrame(p *mon.Panic) string {
 
 func hasSub(s *tspec) bool {
 	for _, sg := range s.Segs {
-		for _, n := range sg.Nodes {
+		for _, n := range sg.allNodes() {
 			if n.Sub != nil {
 				return true
 			}
@@ -122,13 +122,42 @@ func hasSub(s *tspec) bool {
 	return false
 }
 
+// specKinds: which of the constructs of the second coverage round a program holds.
+func specKinds(s *tspec) []string {
+	set := map[string]bool{}
+	var walk func(s *tspec)
+	walk = func(s *tspec) {
+		for _, sg := range s.Segs {
+			if sg.Kind == "switch" {
+				set["switch"] = true
+			}
+			if sg.Kind == "branch" && sg.CondRule == "type" {
+				set["type-switch-branch"] = true
+			}
+			for _, n := range sg.allNodes() {
+				if n.Sub != nil {
+					walk(n.Sub)
+				}
+				if n.Conv != "" {
+					set["converter-"+n.Conv] = true
+				}
+				if n.Pre != "" {
+					set["builtin-"+n.Pre] = true
+				}
+			}
+		}
+	}
+	walk(s)
+	return mon.SortedKeys(set)
+}
+
 func countNodes(s *tspec) (n int, types map[ty]bool, paras map[int]bool) {
 	types, paras = map[ty]bool{}, map[int]bool{}
 	var walk func(s *tspec)
 	walk = func(s *tspec) {
 		types[s.In], types[s.Out] = true, true
 		for _, sg := range s.Segs {
-			for _, nd := range sg.Nodes {
+			for _, nd := range sg.allNodes() {
 				if nd.Sub != nil {
 					walk(nd.Sub)
 					continue
@@ -149,6 +178,15 @@ func countNodes(s *tspec) (n int, types map[ty]bool, paras map[int]bool) {
 func typedCase(ctx context.Context, rep *mon.Reporter, rng *mon.Rand, cfg mon.Config, sample bool) {
 	g := &tgen{r: rng, maxSegs: cfg.Pick(4, 5), maxNest: cfg.Pick(1, 2)}
 	g.lazyBias = rng.Prob(0.3)
+	// second coverage round: lazily failing converters, pipelines around the built-in lambdas (more
+	// of either in a third of the cases)
+	g.pConv, g.pPre = 0.05, 0.07
+	switch rng.Intn(6) {
+	case 0:
+		g.pConv = 0.25
+	case 1:
+		g.pPre = 0.3
+	}
 	cont := mon.PickOne(rng, []string{"pregel", "pregel", "dag", "dag", "chain", "workflow", "workflow"})
 	inTy := mon.PickOne(rng, []ty{tStr, tStr, tAny, tAny, tNamed, tPtr, tRec, tMap, tMap})
 	in := g.genInput(inTy)
@@ -180,6 +218,9 @@ func typedCase(ctx context.Context, rep *mon.Reporter, rng *mon.Rand, cfg mon.Co
 	}
 	for e := range ref.Events {
 		rep.Count("typed_site_"+e, 1)
+	}
+	for _, k := range specKinds(spec) {
+		rep.Count("typed_programs_with_"+k, 1)
 	}
 	rep.Distinct("typed_shapes", spec.render())
 
@@ -218,6 +259,16 @@ func typedCase(ctx context.Context, rep *mon.Reporter, rng *mon.Rand, cfg mon.Co
 	}
 }
 
+// newSite: the run passes one of the mechanisms added in the second coverage round.
+func newSite(ref *rres) bool {
+	for _, e := range []string{"lazy-converter-fires", "lazy-converter-passes", "skipped-target-edge", "builtin-tolist", "builtin-msgparse", "builtin-msglist"} {
+		if ref.Events[e] {
+			return true
+		}
+	}
+	return false
+}
+
 func judgeTyped(rep *mon.Reporter, spec *tspec, ref *rres, obs []tobs, wit map[string]any) {
 	var lines []string
 	for _, o := range obs {
@@ -232,6 +283,9 @@ func judgeTyped(rep *mon.Reporter, spec *tspec, ref *rres, obs []tobs, wit map[s
 	for _, o := range obs {
 		var sig string
 		switch {
+		case o.Panic != nil && (strings.Contains(o.Panic.Value, injectedPanic) || strings.Contains(o.Panic.Stack, "c04.convFail")):
+			// the panic of a node's own per-chunk code, raised where the caller reads the output
+			sig = ID + "/typed/lazy-converter/panic-on-caller/" + o.Para + "/" + panicFrame(o.Panic)
 		case o.Panic != nil:
 			sig = ID + "/typed/panic/" + o.Para + "/" + panicFrame(o.Panic)
 		case o.Stuck:
@@ -308,7 +362,8 @@ func judgeTyped(rep *mon.Reporter, spec *tspec, ref *rres, obs []tobs, wit map[s
 			}
 		}
 		for _, m := range softOrder {
-			if !ref.Soft[m] {
+			if !ref.Soft[m] || newSite(ref) {
+				// (a run that passes one of the mechanisms of the second coverage round is named after that)
 				continue
 			}
 			switch {
